@@ -2,7 +2,7 @@ SPEC = {
     "corr": [{"kind": "ipfix-trunc", "quick": 60000, "thorough": 3000000},
              {"kind": "nf9-trunc", "quick": 60000, "thorough": 3000000}],
     "rule": "sampled well-formed messages (templates announced beforehand by the same exporter; 1..4 sets of 1..4 records "
-            "longer than 4 octets, optional padding) x an undecodable set (unknown template id, reserved set id, or data for a "
+            "of any positive length, padding of 0 .. min(shortest record - 1, 7) octets) x an undecodable set (unknown template id, reserved set id, or data for a "
             "template naming an element missing from the model; random body of 0..36 octets) inserted at EVERY set boundary "
             "x truncation at EVERY octet offset 0..len; oracle on the real decoder's own output: records(inserted) == "
             "records(full), records(truncated) is a prefix of records(full); non-trivial = the implementation emitted at "
@@ -24,7 +24,8 @@ META = {
             "(a) Skip-equivalence: decodeSet_skips (an undecodable set - unknown template id > 255 for the cache at that point, "
             "reserved id 4..255, for v9 also ids 2 and 3 - followed by ANY rest changes the decoder state only by advancing the "
             "reader over the set: cache and records untouched, error slot non-fatal), decodeSet_skips_unknownElem (the same for a "
-            "data set with a cached template and a body > 4 octets on which the record decoder, run on the body alone, stops at an "
+            "data set with a cached template and a body of at least minRecLen octets - one shortest record, so that the record loop is "
+            "entered (padding repair aeca3ca; formerly > 4 octets) - on which the record decoder, run on the body alone, stops at an "
             "element missing from the information model), outer_skips / outer_skips_tail (the outer loop continues on the rest as "
             "if the set were absent), outer_locality (what a clean prefix decodes to does not depend on what follows) and "
             "decode_skips: for hdr ++ pre ++ u ++ post vs hdr ++ pre ++ post, where pre decodes on its own cleanly to its exact "
